@@ -262,6 +262,47 @@ let () = reg "counts" (fun args ->
   let (prog, _) = parse args in
   decimal_of_n (sat_block prog) ^ " " ^ decimal_of_n (exact_block prog))
 
+(* ---------------- DEM flattening (DemFlat.v) ---------------- *)
+(* demflat TOKENS : "E 3 D0 L1 ^ D2 | D D5 | O L1 | S 4 | ( 3 ... )" items separated by '|' inside a block
+   -> the flattened stream by the recursive model and by naive execution of the unrolled model *)
+let parse_dtarget t =
+  if t = "^" then TSep
+  else if t.[0] = 'D' then TD (n_of_decimal (Stdlib.String.sub t 1 (Stdlib.String.length t - 1)))
+  else TL (n_of_decimal (Stdlib.String.sub t 1 (Stdlib.String.length t - 1)))
+let show_dtarget = function TD i -> "D" ^ decimal_of_n i | TL i -> "L" ^ decimal_of_n i | TSep -> "^"
+let show_out l =
+  Stdlib.String.concat ";" (List.map (function
+    | OErr (p, ts) -> "E " ^ decimal_of_n p ^ " " ^ Stdlib.String.concat " " (List.map show_dtarget ts)
+    | ODet ts -> "D " ^ Stdlib.String.concat " " (List.map show_dtarget ts)
+    | OObs ts -> "O " ^ Stdlib.String.concat " " (List.map show_dtarget ts)) l)
+let () = reg "demflat" (fun args ->
+  let rec parse toks =
+    (* returns (instructions, remaining tokens) ; stops at ")" *)
+    match toks with
+    | [] -> ([], [])
+    | ")" :: rest -> ([], rest)
+    | "|" :: rest -> parse rest
+    | "(" :: r :: rest ->
+      let (body, rest') = parse rest in
+      let (more, rest'') = parse rest' in
+      (IRep (nat_of_int (int_of_string r), body) :: more, rest'')
+    | "E" :: p :: rest ->
+      let rec take acc = function (("|" | ")" | "(") :: _) as r -> (List.rev acc, r) | [] -> (List.rev acc, []) | t :: r -> take (t :: acc) r in
+      let (ts, rest') = take [] rest in
+      let (more, rest'') = parse rest' in
+      (IErr (n_of_decimal p, List.map parse_dtarget ts) :: more, rest'')
+    | (("D" | "O") as k) :: rest ->
+      let rec take acc = function (("|" | ")" | "(") :: _) as r -> (List.rev acc, r) | [] -> (List.rev acc, []) | t :: r -> take (t :: acc) r in
+      let (ts, rest') = take [] rest in
+      let (more, rest'') = parse rest' in
+      ((if k = "D" then IDet (List.map parse_dtarget ts) else IObs (List.map parse_dtarget ts)) :: more, rest'')
+    | "S" :: n :: rest -> let (more, rest') = parse rest in (IShift (n_of_decimal n) :: more, rest')
+    | t :: _ -> failwith ("demflat token " ^ t) in
+  let (m, _) = parse args in
+  let (o1, off1) = flat m N0 in
+  let (o2, off2) = exec (unroll m) N0 in
+  show_out o1 ^ " # " ^ decimal_of_n off1 ^ " # " ^ (if o1 = o2 && off1 = off2 then "same" else "DIFFERENT"))
+
 let () =
   (try
      while true do
